@@ -45,8 +45,9 @@ HINTS = (0x03F3, 0x03FF, 0x0011, 0x0002, 0x0020, 0, 1, 2, 4, 8, 16, 32, 64, 20)
 # ------------------------------------------------------------------------------------------------ schema structure
 class N:
     """schema node: module, name, kind (i L l k F f K e), config-false flag (own statement), children"""
-    def __init__(self, mod, name, kind, children=None, cfalse=False):
+    def __init__(self, mod, name, kind, children=None, cfalse=False, ty=None):
         self.mod, self.name, self.kind, self.children, self.cfalse = mod, name, kind, children or [], cfalse
+        self.ty = ty if ty is not None else ("str" if kind in "KeFf" else None)
 
     def keys(self):
         out = []
@@ -58,7 +59,42 @@ class N:
 
 
 def ser(nodes):
-    return "".join("(%s,%s,%s,%s)" % (hexs(n.mod.encode()), hexs(n.name.encode()), n.kind, ser(n.children)) for n in nodes)
+    return "".join("(%s,%s,%s,%s,%s)" % (hexs(n.mod.encode()), hexs(n.name.encode()), n.kind, hexs(n.ty.encode()) if n.ty else "-", ser(n.children)) for n in nodes)
+
+
+ENUMS = [[("up", 1), ("down", 2), ("a b", -3)], [("x", 0), ("it's", 5), ("y", 7)], [("true", 0), ("7", 1), ("+7", 2)]]
+INT_YANG = {"i8": "int8", "i16": "int16", "i32": "int32", "i64": "int64", "u8": "uint8", "u16": "uint16", "u32": "uint32", "u64": "uint64"}
+
+
+def rand_type(rng):
+    r = rng.random()
+    if r < 0.45:
+        return "str"
+    if r < 0.75:
+        t = rng.choice(list(INT_YANG))
+        if rng.random() < 0.4:
+            lo = rng.choice([0, 1, 5]) if t[0] == "u" else rng.choice([-100, -5, 0, 1])
+            hi = lo + rng.choice([0, 5, 100])
+            if rng.random() < 0.3:
+                return "%s:%d..%d,%d..%d" % (t, lo, hi, hi + 10, hi + 20)
+            return "%s:%d..%d" % (t, lo, hi)
+        return t
+    if r < 0.85:
+        return "bool"
+    return "enum:" + ",".join("%s=%d" % (hexs(n.encode()), v) for n, v in rng.choice(ENUMS))
+
+
+def yang_type(ty):
+    head, _, spec = ty.partition(":")
+    if head in INT_YANG:
+        if spec:
+            return "type %s { range \"%s\"; }" % (INT_YANG[head], " | ".join(spec.split(",")))
+        return "type %s;" % INT_YANG[head]
+    if head == "bool":
+        return "type boolean;"
+    if head == "enum":
+        return "type enumeration {%s }" % "".join(" enum \"%s\" { value %s; }" % (unhex(h).decode(), v) for h, v in (it.split("=") for it in spec.split(",")))
+    return "type string;"
 
 
 def gen_children(rng, mod, depth, state, used):
@@ -75,14 +111,14 @@ def gen_node(rng, mod, name, depth, state):
     r = rng.random()
     if depth >= 3 or r < 0.2:
         k = rng.choice(["e", "e", "F" if not state else "f", "f"])
-        return N(mod, name, k, [], cfalse=(k == "f" and not state))
+        return N(mod, name, k, [], cfalse=(k == "f" and not state), ty=rand_type(rng))
     if r < 0.45:
         cf = (not state) and rng.random() < 0.2
         return N(mod, name, "i", gen_children(rng, mod, depth + 1, state or cf, set()), cfalse=cf)
     if r < 0.85:
         cf = (not state) and rng.random() < 0.3
         keys = rng.sample(KEYS, rng.choice([1, 1, 2, 2, 3]))
-        ch = [N(mod, k, "K") for k in keys] + gen_children(rng, mod, depth + 1, state or cf, set(keys))
+        ch = [N(mod, k, "K", ty=rand_type(rng)) for k in keys] + gen_children(rng, mod, depth + 1, state or cf, set(keys))
         return N(mod, name, "l" if (state or cf) else "L", ch, cfalse=cf)
     return N(mod, name, "k", gen_children(rng, mod, depth + 1, True, set()), cfalse=not state)
 
@@ -99,8 +135,8 @@ def yang_of(n, mod, state):
     if n.kind == "k":
         return " list %s {%s%s }" % (n.name, cf, kids)
     if n.kind in "Ff":
-        return " leaf-list %s { type string;%s }" % (n.name, cf)
-    return " leaf %s { type string; }" % n.name
+        return " leaf-list %s { %s%s }" % (n.name, yang_type(n.ty), cf)
+    return " leaf %s { %s }" % (n.name, yang_type(n.ty))
 
 
 class Schema:
@@ -113,10 +149,10 @@ class Schema:
         for name in names[:rng.randint(2, 4)]:
             top.append(gen_node(rng, m, name, 0, False))
         if not any(n.kind in "Ll" for n in top):
-            top.append(N(m, "lst0", "L", [N(m, "k", "K"), N(m, "k2", "K"), N(m, "v", "e"), N(m, "in", "i", [N(m, "f", "F")])]))
+            top.append(N(m, "lst0", "L", [N(m, "k", "K"), N(m, "k2", "K", ty="i8"), N(m, "v", "e"), N(m, "in", "i", [N(m, "f", "F", ty="u16:1..10")])]))
         if not any(n.kind == "k" for n in top):
             top.append(N(m, "st0", "k", [N(m, "v", "e"), N(m, "sl", "l", [N(m, "id", "K"), N(m, "w", "f")])], cfalse=True))
-        top.append(N(m, "c", "i", [N(m, "l", "F"), N(m, "s", "e")]))
+        top.append(N(m, "c", "i", [N(m, "l", "F", ty="inst"), N(m, "s", "e", ty="inst")]))
         # augments: containers / lists of the first module (chain wholly in the first module) get children of the second module
         self.augments = []
         def walk(nodes, path, state):
@@ -181,6 +217,24 @@ def value(rng):
     return rng.choice(BAD_VALUES)
 
 
+INT_VALUES = [b"7", b"+7", b"007", b" 7 ", b"7 ", b"\n7", b"-0", b"0", b"-1", b"1", b"5", b"10", b"100", b"127", b"128", b"-128", b"-129", b"255", b"256", b"65535", b"65536",
+              b"4294967295", b"4294967296", b"9223372036854775807", b"9223372036854775808", b"-9223372036854775808", b"18446744073709551615", b"18446744073709551616",
+              b"0x10", b"1.0", b"1e1", b"", b" ", b"+", b"-", b"7a", b"+-7", b"--7", b"0007", b"+0", b"1 2"]
+BOOL_VALUES = [b"true", b"false", b"TRUE", b" true", b"true ", b"1", b"0", b"", b"tru", b"falsee"]
+
+
+def value_for(rng, ty):
+    head, _, spec = (ty or "str").partition(":")
+    if head in INT_YANG:
+        return rng.choice(INT_VALUES) if rng.random() < 0.9 else str(rng.randint(-300, 300)).encode()
+    if head == "bool":
+        return rng.choice(BOOL_VALUES)
+    if head == "enum":
+        names = [unhex(it.split("=")[0]) for it in spec.split(",")]
+        return rng.choice(names) if rng.random() < 0.75 else rng.choice([b"", b"nope", names[0] + b" ", b" " + names[0], names[0].upper(), b"1"])
+    return value(rng)
+
+
 class Mut:
     """what a generated path deviates in (None = intended valid)"""
     def __init__(self, rng, p):
@@ -207,7 +261,7 @@ def pred_of(rng, sch, n, mut, wsp):
             keys = keys + [keys[0]]; mut.done = True
         out = b""
         for i, k in enumerate(keys):
-            v = value(rng)
+            v = value_for(rng, k.ty)
             name = k.name.encode()
             if mut.kind == "keyprefix" and not mut.done:
                 name = rng.choice([n.mod, sch.aug]).encode() + b":" + name; mut.done = True
@@ -243,7 +297,7 @@ def pred_of(rng, sch, n, mut, wsp):
             return b"[2]"
         if n.kind == "f" and rng.random() < 0.3:
             return pos_of(rng, mut, w)
-        v = value(rng)
+        v = value_for(rng, n.ty)
         rhs = v if (re.fullmatch(rb"[0-9]+(\.[0-9]*)?|\.[0-9]+", v) and rng.random() < 0.5) else quote(rng, v)
         return b"[" + w() + b"." + w() + b"=" + w() + rhs + w() + b"]"
     if mut.kind == "wrongpred" and not mut.done:
@@ -362,8 +416,8 @@ def run_inst(run):
     from checks import valcomp
     cx = run.cx
     rng = cx.sub_rng("instid")
-    nsch = cx.n(4, 24)
-    per = cx.n(420, 6000)
+    nsch = cx.n(4, 12)
+    per = cx.n(420, 2500)
     total = n_acc = n_pairs = 0
     accepted, pairs = {}, {}
     verdicts = {}
@@ -452,10 +506,10 @@ def run_inst(run):
         for i in range(len(cans) - 1):
             pr.append((by_c[cans[i]][0], by_c[cans[i + 1]][-1]))
         flat = [x for c in cans for x in by_c[c]]
-        for _ in range(cx.n(60, 1500)):
+        for _ in range(cx.n(60, 800)):
             if flat:
                 pr.append((rng.choice(flat), rng.choice(flat)))
-        pr = list(dict.fromkeys(pr))[:cx.n(260, 6000)]
+        pr = list(dict.fromkeys(pr))[:cx.n(260, 2500)]
         sub = list(dict.fromkeys([p for p, _ in pr]))[:cx.n(25, 300)]
         cases = []
         for p, q in pr:
